@@ -288,6 +288,32 @@ def _stmts():
     def returning(Q, t, o):
         return reg["PostgreSQLQuery"].into(t).insert(1).returning(t.id, t.a + 1)
 
+    def returning_delete(Q, t, o):
+        PG = reg["PostgreSQLQuery"]
+        return PG.from_(t).delete().where(t.a == 1).returning(t.id, t.a + 1)
+
+    def returning_delete_join(Q, t, o):
+        PG = reg["PostgreSQLQuery"]
+        return PG.from_(o).delete().join(t).on(o.id == t.id).returning(t.id, o.a)
+
+    def returning_update(Q, t, o):
+        PG = reg["PostgreSQLQuery"]
+        return PG.update(t).set(t.a, 1).from_(o).where(t.id == o.id).returning(t.id, o.b, t.a * 2)
+
+    def returning_insert_select(Q, t, o):
+        PG = reg["PostgreSQLQuery"]
+        return PG.into(t).from_(o).select(o.a).returning(t.id)
+
+    def distinct_on_expr(Q, t, o):
+        return reg["PostgreSQLQuery"].from_(t).join(o).on(t.id == o.id).select(t.a).distinct_on(t.b + o.b, fn("Upper")(t.c))
+
+    def analytic_expr_keys(Q, t, o):
+        an = lambda n: reg["an." + n]  # noqa: E731
+        return Q.from_(t).join(o).on(t.id == o.id).select(
+            an("Sum")(t.x).over(t.g + 1, fn("Coalesce")(t.h, o.h)).orderby(t.amount - t.fee, fn("Coalesce")(t.a, o.b)),
+            an("Rank")().orderby(reg["Case"]().when(t.k > 1, t.k).else_(o.k)),
+            an("RowNumber")().over(t.p).orderby(t.ts, order=reg["Order"].desc))
+
     def distinct_on(Q, t, o):
         return reg["PostgreSQLQuery"].from_(t).select(t.a).distinct_on(t.b)
 
@@ -325,7 +351,8 @@ STATEMENTS = ["sel_from", "sel_all_clauses", "sel_join_item", "sel_join_criterio
               "sel_subquery_where", "sel_subquery_from", "sel_cte", "sel_function_args", "sel_analytic", "sel_orderby_groupby_terms",
               "sel_for_update", "insert_values", "insert_select", "insert_into_target", "upsert", "upsert_conflict_where", "update_set",
               "update_set_value_other", "update_join", "delete", "returning", "distinct_on", "prewhere", "rollup", "setop",
-              "sel_twin_terms", "sel_twin_terms_where", "sel_subquery_list", "sel_subquery_operands"]
+              "sel_twin_terms", "sel_twin_terms_where", "sel_subquery_list", "sel_subquery_operands",
+              "returning_delete", "returning_delete_join", "returning_update", "returning_insert_select", "distinct_on_expr", "analytic_expr_keys"]
 
 
 def run_stmt(case, mon):
